@@ -39,12 +39,19 @@ def render(stmt, kind, n, rows=3):
         return init(v, n)
     if op == "nested":
         return "%s := [[0] ** %d] ** %d" % (v, n, rows)
+    if op == "nestedd":
+        # separate row payloads; as a dict of lists for kind "dict" (the `{: []}` grouping idiom)
+        if kind == "dict":
+            return "%s := {%s}" % (v, ", ".join("%d: [0] ** %d" % (j, n) for j in range(rows)))
+        return "%s := [%s]" % (v, ", ".join("[0] ** %d" % n for _ in range(rows)))
+    if op == "opassign2":
+        return "%s[%d] append= 7" % (v, stmt.get("i", 1) - 1)
     if op == "alias":
         return "%s := %s" % (v, stmt["w"] + stmt["w"])
     if op == "set":
         return setf % v
     if op == "set2":
-        return "%s[%d][2] = 7" % (v, stmt.get("i", 1) - 1 if "i" in stmt else 1)
+        return "%s[%d][2] = 7" % (v, stmt.get("i", 1) - 1)
     if op == "opassign":
         return opf % v
     if op == "pop":
@@ -81,17 +88,18 @@ def mc(rep, tier, wd):
     cases, meta = [], []
     for t in trans:
         seq = list(t["hist"]) + [t["stmt"]]
-        if t["stmt"]["op"] not in ("set", "set2", "opassign", "pop"):
+        if t["stmt"]["op"] not in ("set", "set2", "opassign", "opassign2", "pop"):
             continue
-        nested_only = any(s["op"] in ("nested", "set2") for s in seq)
-        for kind in kinds:
-            if nested_only and kind != "list":
+        nested_only = any(s["op"] in ("nested", "nestedd", "set2", "opassign2") for s in seq)
+        has_dictrows = any(s["op"] == "nestedd" for s in seq) and not any(s["op"] in ("nested", "flat", "set2") for s in seq)
+        for kind in (kinds if not has_dictrows else list(dict.fromkeys(kinds + ["dict"]))):
+            if nested_only and kind != "list" and not (kind == "dict" and has_dictrows):
                 continue
             if kind != "list" and any(s["op"] == "pop" for s in seq):
                 continue
             n = 4000 if kind != "bytes" else 40000
             srcs = redeclare_safe([render(s, kind, n) for s in seq])
-            growth = t["stmt"]["op"] == "opassign"
+            growth = t["stmt"]["op"] in ("opassign", "opassign2")
             steps = [{"src": s} for s in srcs]
             if growth:
                 steps += [{"src": srcs[-1]} for _ in range(REPEAT - 1)]
@@ -136,21 +144,24 @@ def drive(rep, tier, seed):
     nw = 40 if tier == "quick" else 400
     cases, plans = [], []
     for _ in range(nw):
-        kind = rng.choice(["list", "list", "dict", "vec", "bytes", "nested"])
-        base = "list" if kind == "nested" else kind
+        kind = rng.choice(["list", "list", "dict", "vec", "bytes", "nested", "rows", "dictrows"])
+        base = "dict" if kind == "dictrows" else ("list" if kind in ("nested", "rows") else kind)
         n = rng.choice([2000, 4000, 8000]) * (10 if kind == "bytes" else 1)
         eb = KINDS[base][0]
-        stmts = [{"op": "nested" if kind == "nested" else "flat", "v": "x"}]
+        stmts = [{"op": {"nested": "nested", "rows": "nestedd", "dictrows": "nestedd"}.get(kind, "flat"), "v": "x"}]
         k = rng.randint(60, 200) if tier == "thorough" else rng.randint(40, 90)
         aliased_at = set(rng.sample(range(1, k), rng.choice([0, 1, 1, 2])))
         for j in range(1, k):
             if j in aliased_at:
                 stmts.append({"op": "alias", "v": "y", "w": "x"})
                 continue
-            forms = ["set", "opassign"] + (["pop"] if base == "list" else []) + (["set2", "set2"] if kind == "nested" else [])
+            if kind in ("rows", "dictrows"):
+                forms = ["opassign2", "opassign2", "set2"] if kind == "rows" else ["opassign2"]
+            else:
+                forms = ["set", "opassign"] + (["pop"] if base == "list" else []) + (["set2", "set2", "opassign2"] if kind == "nested" else [])
             f = rng.choice(forms)
             s = {"op": f, "v": rng.choice(["x", "x", "x", "y"]) if any(t["op"] == "alias" for t in stmts) else "x"}
-            if f == "set2":
+            if f in ("set2", "opassign2"):
                 s["i"] = rng.randint(1, 3)
             stmts.append(s)
         srcs = redeclare_safe([render(s, base, n) for s in stmts])
@@ -167,9 +178,10 @@ def drive(rep, tier, seed):
                 # a failing statement (pop of an emptied list ...) ends the workload: no allocation claim is made for it
                 break
             events.append({"ev": "stmt", "s": dict(s, w=s.get("w", ""), i=s.get("i", 1)), "n": p["n"], "r": 3,
-                           "eb": p["eb"], "bytes": st[j].get("alloc", 0), "growth": s["op"] == "opassign"})
+                           "eb": 48 if p["kind"] == "dictrows" else p["eb"], "bytes": st[j].get("alloc", 0),
+                           "growth": s["op"] in ("opassign", "opassign2")})
             info.append(dict(src=c["steps"][j]["src"], kind=p["kind"], n=p["n"], case=c["id"], step=j, op=s["op"]))
-        events.append({"ev": "end", "eb": p["eb"]})
+        events.append({"ev": "end", "eb": 48 if p["kind"] == "dictrows" else p["eb"]})
         info.append(dict(src="(end of workload)", kind=p["kind"], n=p["n"], case=c["id"], step=len(st), op="workload"))
     return events, info, cases
 
